@@ -27,7 +27,7 @@ PKG = "hvsrpy"
 def _baseline():
     from .normalize import load_baseline
     base = load_baseline()
-    funcs = {q for q in base if not q.startswith(("const:", "sig:", "pos:", "cval:"))}
+    funcs = {q for q in base if not q.startswith(("const:", "sig:", "pos:", "cval:", "attrs:"))}
     consts = {q[6:] for q in base if q.startswith("const:")}
     modules = {q.split(".")[0] for q in funcs | consts}
     return funcs, consts, modules
@@ -488,3 +488,47 @@ def restore_constant_names(trees: Dict[str, ast.Module]) -> List[Tuple[str, str,
             elif isinstance(x, ast.Constant) and isinstance(x.value, str) and x.value in renames:
                 x.value = renames[x.value]
     return [d for d in done if d[1] in renames]
+
+
+def restore_attribute_names(trees: Dict[str, ast.Module]) -> List[Tuple[str, str, str]]:
+    """Private attributes (`self._x`) of a pinned class that were renamed get their pinned names back, package-wide: the class stores
+    the same number of private attributes in the same order of first store, the pinned name occurs nowhere in the package any more
+    and the new name is not a pinned attribute of any class."""
+    from .normalize import load_baseline
+    base = load_baseline()
+    pinned: Dict[str, List[str]] = {}
+    for b in base:
+        if b.startswith("attrs:") and "=" in b:
+            q, v = b[6:].split("=", 1)
+            pinned[q] = [x for x in v.split(",") if x]
+    if not pinned:
+        return []
+    all_pinned = {a for v in pinned.values() for a in v}
+    used = {x.attr for t in trees.values() for x in ast.walk(t) if isinstance(x, ast.Attribute)}
+    renames: Dict[str, str] = {}
+    done: List[Tuple[str, str, str]] = []
+    for m, tree in trees.items():
+        for cls in [st for st in tree.body if isinstance(st, ast.ClassDef)]:
+            want = pinned.get(f"{m}.{cls.name}")
+            if not want:
+                continue
+            have: List[str] = []
+            for x in sorted([x for x in ast.walk(cls) if isinstance(x, ast.Attribute) and isinstance(x.ctx, ast.Store) and isinstance(x.value, ast.Name)
+                             and x.value.id == "self" and x.attr.startswith("_") and not x.attr.startswith("__")], key=lambda x: (x.lineno, x.col_offset)):
+                if x.attr not in have:
+                    have.append(x.attr)
+            if len(have) != len(want):
+                continue
+            for old, new in zip(want, have):
+                if old != new and old not in used and new not in all_pinned and new not in renames:
+                    renames[new] = old
+                    done.append((f"{m}.{cls.name}", new, old))
+    if not renames:
+        return done
+    for t in trees.values():
+        for x in ast.walk(t):
+            if isinstance(x, ast.Attribute) and x.attr in renames:
+                x.attr = renames[x.attr]
+            elif isinstance(x, ast.Constant) and isinstance(x.value, str) and x.value in renames:
+                x.value = renames[x.value]
+    return done
